@@ -182,3 +182,36 @@ func Verif_C06_revert() {
 	verifCodeRefs(adb, "after revert")
 	verifReach("end")
 }
+
+// The smallest history of the known finding C06-data-trie-cache-after-remove-and-recreate (so that the quick
+// tier re-establishes it too): both accounts deployed and committed, the second one removed, snapshot, the
+// first one (which has storage) removed and a fresh account saved under its address, revert.
+func Verif_C06_knownStaleDataTrieCache() {
+	adb := verifNewAccountsDB()
+	for i, addr := range verifAddrs {
+		acc, _ := adb.LoadAccount(addr)
+		ua := acc.(state.UserAccountHandler)
+		ua.SetCode(verifCodes[0])
+		_ = ua.AddToBalance(big.NewInt(10))
+		if i == 0 {
+			_ = ua.DataTrieTracker().SaveKeyValue(verifStoreKey, []byte("v1"))
+		}
+		verifAssert(adb.SaveAccount(ua) == nil, "preset save")
+	}
+	_, err := adb.Commit()
+	verifAssert(err == nil, "preset commit")
+	verifAssert(adb.RemoveAccount(verifAddrs[1]) == nil, "second account removed")
+	snapshot := adb.JournalLen()
+	r0, v0 := verifView(adb)
+	verifAssert(adb.RemoveAccount(verifAddrs[0]) == nil, "first account removed")
+	acc, _ := adb.LoadAccount(verifAddrs[0])
+	ua := acc.(state.UserAccountHandler)
+	vals := [][]byte{[]byte("v2"), nil}
+	_ = ua.DataTrieTracker().SaveKeyValue(verifStoreKey, vals[verifChoice("value", len(vals))])
+	verifAssert(adb.SaveAccount(ua) == nil, "fresh account saved under the same address")
+	verifAssert(adb.RevertToSnapshot(snapshot) == nil, "revert ok")
+	verifReach("end")
+	verifKnown("C06-data-trie-cache-after-remove-and-recreate", true)
+	r1, v1 := verifView(adb)
+	verifAssert(verifSameView(r0, v0, r1, v1), "revert restores root, balances, nonces, owners, code, metadata and storage")
+}
